@@ -151,6 +151,41 @@ example :
       | .ok (r', _) => (((r'.onData 2 [8]).cache.map snOf), ((r'.onData 4 [9]).cache.map snOf))
       | .panic => ([], [])) = ([3], [3, 4]) := by decide
 
+/-- **C02_forged_hb_no_duplicate**: in EVERY reachable state of the system (any step list, any faults) a HEARTBEAT
+    of ANY content — also one that never came from the writer — followed by a copy of the DATA of any sample the reader
+    has already delivered leaves the delivered list as it was: the HEARTBEAT branch, the one the adversary of
+    `C02_subsequence` cannot forge, cannot be used to make the reader present a sample twice. -/
+theorem C02_forged_hb_no_duplicate (cfg : Cfg) (hfix : cfg.fixD43 = true) (rel tl : Bool) (f : Nat) (hf : 1 ≤ f) (hf16 : f < 65536)
+    (steps : List Step) (hsteps : ∀ st, st ∈ steps → StepOK st) (s : Sys)
+    (hrun : Sys.run cfg (Sys.init rel tl f) steps = .ok s)
+    (first last count : Nat) (fin lv : Bool) (r' : Reader) (out : List Dgram)
+    (h : s.r.onHb cfg first last count fin lv = .ok (r', out)) :
+    r'.cache = s.r.cache ∧ ∀ c, c ∈ s.r.cache → ∀ payload, (r'.onData c.sn payload).cache = r'.cache := by
+  have hinv := inv1_run cfg hfix steps _ s hsteps (inv1_init rel tl f hf hf16) hrun
+  cases hp : s.r.proxy with
+  | none =>
+    have hc : s.r.cache = [] := hinv.reader.noProxy hp
+    unfold Reader.onHb at h
+    rw [hp] at h
+    simp only at h
+    injection h with h; injection h with h1 h2; subst h1
+    exact ⟨rfl, by intro c hcm; rw [hc] at hcm; cases hcm⟩
+  | some p =>
+    obtain ⟨hcache, p', _, _, hre⟩ := C02_hb_never_reopens cfg s.r r' p hp first last count fin lv out h
+    refine ⟨hcache, ?_⟩
+    intro c hc payload
+    exact hre c.sn payload (hinv.reader.bound p hp c hc)
+
+/-- non-vacuity of C02_forged_hb_no_duplicate: a reachable best-effort state with two delivered samples, a forged
+    HEARTBEAT (first = 1, last = 50, count 1000, not final), then a copy of DATA 1: still [1, 2] -/
+example :
+    (match Sys.run Cfg.fixed (Sys.init false true 8) [.doMatch, .write [1], .write [2], .deliver 0, .deliver 0] with
+      | .ok s =>
+        (match s.r.onHb Cfg.fixed 1 50 1000 false false with
+         | .ok (r', _) => (s.r.cache.map snOf, (r'.onData 1 [1]).cache.map snOf)
+         | .panic => ([], []))
+      | .panic => ([], [])) = ([1, 2], [1, 2]) := by decide
+
 /-- as-is (D43): a re-announcement of the match replaces both proxies by fresh ones — the writer sends its history
     again and the reader accepts it again: sample 1 is delivered twice with no fault at all -/
 theorem C02_rematch_duplicates_asis_counterexample :
